@@ -39,12 +39,18 @@ type Conn struct {
 	// fails the write before anything is written; partial>0 writes that many bytes first.
 	OnWrite func(n int, p []byte) (partial int, err error)
 	Name    string
+	// Waiting is true while a managed thread is parked in Read with nothing to read
+	// (a harness driver waits for this to know the handler has consumed its input).
+	Waiting bool
 }
 
 func NewConn(name string) *Conn { return &Conn{Name: name} }
 
 // Feed appends bytes the peer sends.
 func (c *Conn) Feed(b []byte) { c.mu.Lock(); c.in.Write(b); c.mu.Unlock() }
+
+// PendingIn returns the bytes fed but not yet read.
+func (c *Conn) PendingIn() []byte { c.mu.Lock(); defer c.mu.Unlock(); return append([]byte{}, c.in.Bytes()...) }
 
 // ClosePeer marks the end of the peer's stream.
 func (c *Conn) ClosePeer() { c.mu.Lock(); c.PeerClosed = true; c.mu.Unlock() }
@@ -60,7 +66,9 @@ var ErrClosed = errors.New("use of closed network connection")
 func (c *Conn) Read(p []byte) (int, error) {
 	if s := vsched.Active(); s != nil && !s.Aborted() {
 		if !c.readable() {
+			c.Waiting = true
 			s.Block("read "+c.Name, c.readable)
+			c.Waiting = false
 		} else {
 			s.Yield("read " + c.Name)
 		}
